@@ -5,7 +5,7 @@
 #[verifier::external_body]
 pub struct ExIoError(std::io::Error);
 
-//@ASSUME sink model: trait specification attached to std::io::Write (ghost sink/wf/anchor/room; write accepts any prefix or fails leaving the sink unchanged; flush leaves the sink unchanged). Every io::Write implementor is assumed to be a model of it (n <= buf.len() is io::Write's documented contract).
+//@ASSUME sink model: trait specification attached to std::io::Write (ghost sink/wf/anchor; write accepts any prefix or fails leaving the sink unchanged; flush leaves the sink unchanged). Every io::Write implementor is assumed to be a model of it (n <= buf.len() is io::Write's documented contract).
 #[verifier::external_trait_specification]
 #[verifier::external_trait_extension(WriteSpec via WriteSpecImpl)]
 pub trait ExWrite {
@@ -15,20 +15,24 @@ pub trait ExWrite {
     spec fn wf(&self) -> bool;
     /// a ghost constant no write changes
     spec fn anchor(&self) -> nat;
-    /// the sink can take n more bytes without a counter overflowing (true for a plain sink)
-    spec fn room(&self, n: nat) -> bool;
 
     fn write(&mut self, buf: &[u8]) -> (r: std::io::Result<usize>)
-        requires old(self).wf(), old(self).room(buf@.len()),
+        requires old(self).wf(),
         ensures final(self).wf(), final(self).anchor() == old(self).anchor(),
             match r {
                 Ok(n) => n <= buf@.len() && final(self).sink() == old(self).sink() + buf@.subrange(0, n as int),
                 Err(_) => final(self).sink() == old(self).sink(),
-            },
-            forall|k: nat| old(self).room(k) && k >= buf@.len() ==> final(self).room((k - (final(self).sink().len() - old(self).sink().len())) as nat);
+            };
+
+    /// provided method of io::Write (std's default body loops on write, retries Interrupted, turns Ok(0) into
+    /// WriteZero): trusted to have this contract for every implementor
+    fn write_all(&mut self, buf: &[u8]) -> (r: std::io::Result<()>)
+        requires old(self).wf(),
+        ensures final(self).wf(), final(self).anchor() == old(self).anchor(),
+            r is Ok ==> final(self).sink() == old(self).sink() + buf@,
+            r is Err ==> exists|k: int| 0 <= k <= buf@.len() && #[trigger] (old(self).sink() + buf@.subrange(0, k)) == final(self).sink();
 
     fn flush(&mut self) -> (r: std::io::Result<()>)
         requires old(self).wf(),
-        ensures final(self).wf(), final(self).sink() == old(self).sink(), final(self).anchor() == old(self).anchor(),
-            forall|k: nat| old(self).room(k) ==> final(self).room(k);
+        ensures final(self).wf(), final(self).sink() == old(self).sink(), final(self).anchor() == old(self).anchor();
 }
